@@ -484,6 +484,9 @@ func Drive(spec *Spec, o DriveOpts) int {
 		merged.Inconcl = inconcl
 		inconcl = append(inconcl, spec.Floor(o.Tier, merged)...)
 	}
+	if len(merged.Samples) == 0 {
+		inconcl = append(inconcl, "the workload recorded no sample case")
+	}
 	matchedKnown := map[string]int{}
 	var unmatched []Violation
 	seenKey := map[string]int{}
